@@ -5,7 +5,8 @@
    KPend, KErr; after the script: everything offered).  aw_run writes the values in order under the caller
    protocol of the property (after every Pending: poll again or drop; a dropped or failed write is followed by
    sync, re-created when dropped or failed, until it returns Ok), then calls sync once on the idle writer.
-   enc_res is the outcome of encoding a value (payload, or failure after some bytes); enc_fits e: |payload| + 4 < 2^32;
+   enc_res is the outcome of encoding a value (payload, or failure after some bytes); enc_fits max e: an accepted
+   payload is shorter than 2^32 (always true for max < 2^32, i.e. for every max_len the API can set);
    frame_part max e = the frame of e if it encodes and |payload| <= max, else nothing. *)
 From MC Require Import Bytes FrameIo FrameIoFacts AsyncIo AsyncIoFacts.
 Local Open Scope N_scope.
@@ -14,15 +15,26 @@ Local Open Scope N_scope.
    of the accepted values in order; the writer ends idle; the final sync returns Ok; a completed write returns
    its payload length and a refused value yields its error followed by an immediate sync Ok (evs_ok); the
    number of WriteZero errors equals the number of accept-0 outcomes consumed. *)
-Theorem C16_frames : forall ovf max es sched calls b0 c0,
-  Forall enc_fits es ->
+Theorem C16_frames : forall max es sched calls b0 c0,
+  Forall (enc_fits max) es ->
   exists evss w' k',
-    aw_run ovf calls es (mkawriter b0 max WNone) (mkasink [] sched c0) = (evss, SyReady SOk, w', k') /\
+    aw_run calls es (mkawriter b0 max WNone) (mkasink [] sched c0) = (evss, SyReady SOk, w', k') /\
     aw_state w' = WNone /\
     concat (k_out k') = concat (map (frame_part max) es) /\
     Forall2 (evs_ok max) es evss /\
     (length (filter is_wz (concat evss)) + nzero (k_sched k') = nzero sched)%nat.
 Proof. exact aio_write_frames. Qed.
+
+(* The same with the only assumption the real API needs: max_len is a u32 (AsyncWriter::set_max_len). *)
+Theorem C16_frames_u32 : forall max es sched calls b0 c0,
+  max < 4294967296 ->
+  exists evss w' k',
+    aw_run calls es (mkawriter b0 max WNone) (mkasink [] sched c0) = (evss, SyReady SOk, w', k') /\
+    aw_state w' = WNone /\
+    concat (k_out k') = concat (map (frame_part max) es) /\
+    Forall2 (evs_ok max) es evss /\
+    (length (filter is_wz (concat evss)) + nzero (k_sched k') = nzero sched)%nat.
+Proof. exact aio_write_frames_u32. Qed.
 
 (* The invariant behind it, at the granularity of one poll: sink = base ++ first o bytes of the buffered frame,
    o only moves forward, Ok exactly when the frame is complete.  A drop changes neither writer nor sink. *)
@@ -38,9 +50,9 @@ Theorem C16_invariant : forall w k o base fu,
 Proof. exact sync_poll_inv. Qed.
 
 (* One value from an idle writer, any sink and caller script. *)
-Theorem C16_call : forall ovf calls e w k,
-  aw_state w = WNone -> enc_fits e ->
-  exists evs c' w' k', aw_write_call ovf calls e w k = (evs, c', w', k') /\ call_post e w k evs w' k'.
+Theorem C16_call : forall calls e w k,
+  aw_state w = WNone -> enc_fits (aw_max w) e ->
+  exists evs c' w' k', aw_write_call calls e w k = (evs, c', w', k') /\ call_post e w k evs w' k'.
 Proof. exact aw_write_call_spec. Qed.
 
 (* sync on an idle writer writes nothing. *)
@@ -55,11 +67,23 @@ Proof. exact sync_zero. Qed.
 
 (* Encode failure or over-long value, in any writer state: the error is returned by the first poll, the sink
    is not called, the state enum is unchanged (the buffer is overwritten). *)
-Theorem C16_reject : forall ovf fuel e w k,
-  frame_part (aw_max w) e = [] -> enc_fits e ->
-  exists er b, aw_poll ovf fuel WfStart e w k = (WReady (WErr er), mkawriter b (aw_max w) (aw_state w), k) /\
+Theorem C16_reject : forall fuel e w k,
+  frame_part (aw_max w) e = [] ->
+  exists er b, aw_poll fuel WfStart e w k = (WReady (WErr er), mkawriter b (aw_max w) (aw_state w), k) /\
     er = match e with EncOk _ => IoInvalidLen | EncFail _ => IoEncode end.
 Proof. exact aw_poll_reject. Qed.
+
+(* Inside the caller protocol every write starts on an idle writer (C16_call ends idle), so a refused value
+   meets State::None: no sink call (the sink is returned unchanged), the writer stays idle, its events are the
+   error and an immediate sync Ok, and every later sync is the idle sync.  (A refusal over a still-armed state,
+   notes/io.md observation 3, needs a write issued before a cancelled write was synced: outside the protocol.) *)
+Theorem C16_reject_in_protocol : forall calls e w k,
+  aw_state w = WNone -> frame_part (aw_max w) e = [] ->
+  exists evs c' w',
+    aw_write_call calls e w k = (evs, c', w', k) /\ aw_state w' = WNone /\
+    evs = [EvW (WErr (match e with EncOk _ => IoInvalidLen | EncFail _ => IoEncode end)); EvS SOk] /\
+    forall fuel, sync_poll fuel SStart w' k = (SyReady SOk, w', k).
+Proof. exact aio_reject_in_protocol. Qed.
 
 Print Assumptions C16_frames.
 Print Assumptions C16_invariant.
@@ -67,3 +91,5 @@ Print Assumptions C16_call.
 Print Assumptions C16_idle.
 Print Assumptions C16_zero.
 Print Assumptions C16_reject.
+Print Assumptions C16_frames_u32.
+Print Assumptions C16_reject_in_protocol.
